@@ -643,8 +643,13 @@ where
 			ValueType::Void => true,
 			ValueType::Array {
 				element_type,
-				length: _,
-			} => element_type.is_wellformed_sized_element(),
+				length,
+			} =>
+			{
+				// The number of elements has to fit 32 bits.
+				u32::try_from(*length).is_ok()
+					&& element_type.is_wellformed_sized_element()
+			}
 			ValueType::ArrayWithNamedLength {
 				element_type,
 				named_length: _,
@@ -696,8 +701,13 @@ where
 			ValueType::Void => false,
 			ValueType::Array {
 				element_type,
-				length: _,
-			} => element_type.is_wellformed_sized_element(),
+				length,
+			} =>
+			{
+				// The number of elements has to fit 32 bits.
+				u32::try_from(*length).is_ok()
+					&& element_type.is_wellformed_sized_element()
+			}
 			ValueType::ArrayWithNamedLength {
 				element_type,
 				named_length: _,
